@@ -117,6 +117,78 @@ class VImpl(VSpecs):                 # their implementations
 
 
 POINTS = [getattr(VSpecs, "s%d" % _i) for _i in range(1, 7)]
+
+# ---- the history of this process ------------------------------------------------------------------------------
+# A driver process handles many archives one after the other, the way a long-running service does.  HIST counts the
+# archives it has loaded so far.  The components above are registered before the first load; the "late" components
+# come from a plugin module that does not exist at start-up: it is written and loaded with dr.load_components() only
+# after the process has loaded at least one archive (if there has been none yet, a first small archive of an early
+# component is collected, persisted and loaded first).  Their names are never asked for before they are registered.
+HIST = {"loads": 0, "late_registered_after": None}
+LATE = {}
+
+LATE_PLUGIN = '''
+import __main__ as _drv
+from insights.core.context import HostContext
+from insights.core.plugins import datasource
+from insights.core.spec_factory import RegistryPoint, SpecSet
+
+
+def _mk(prefix, i):
+    def comp(broker):
+        return _drv.CUR[i](broker)
+    comp.__name__ = comp.__qualname__ = "%s%d" % (prefix, i)
+    return datasource(HostContext)(comp)
+
+
+COMPS = [_mk("lentry", i) for i in range(1, 7)]
+
+
+class LSpecs(SpecSet):
+    s1 = RegistryPoint()
+    s2 = RegistryPoint()
+    s3 = RegistryPoint()
+    s4 = RegistryPoint()
+    s5 = RegistryPoint()
+    s6 = RegistryPoint()
+
+
+class LImpl(LSpecs):
+    s1 = _mk("limpl", 1)
+    s2 = _mk("limpl", 2)
+    s3 = _mk("limpl", 3)
+    s4 = _mk("limpl", 4)
+    s5 = _mk("limpl", 5)
+    s6 = _mk("limpl", 6)
+
+
+POINTS = [getattr(LSpecs, "s%d" % i) for i in range(1, 7)]
+'''
+
+
+def late_components(base, rng):
+    if LATE:
+        return LATE
+    if HIST["loads"] == 0:
+        # the earlier archive of this process: one early component, collected, persisted and loaded
+        first = dict(id="history/first-archive", pooled=False, fault=["none"], entries=[dict(
+            kind="text", multi=False, failed=False, outcome="ok", backed=True, filtered=False, late=False,
+            saveas="none", elems=[dict(lines=[["p"]], cmd="", args={"shape": "none", "v": []})])])
+        import collections
+        Case(first, base, rng, 100).run("init", collections.defaultdict(int))
+    if HIST["loads"] == 0:
+        raise RuntimeError("history: the first archive of the process was not loaded")
+    plug = os.path.join(base, "plugins-%d" % os.getpid())
+    os.makedirs(plug, exist_ok=True)
+    mod = "c11_late_plugin"
+    with open(os.path.join(plug, mod + ".py"), "w") as f:
+        f.write(LATE_PLUGIN)
+    sys.path.insert(0, plug)
+    HIST["late_registered_after"] = HIST["loads"]
+    dr.load_components(mod, continue_on_error=False)
+    m = sys.modules[mod]
+    LATE.update(comps=list(m.COMPS), points=list(m.POINTS))
+    return LATE
 # the filterable spec has one filter with a max-match budget (the model's Budget); every line of a "filtered" entry
 # contains it and an element has at most that many lines, so loading must keep them all
 FILTER, BUDGET = "KEEP", 2
@@ -134,6 +206,7 @@ class Case(object):
         self.case = case
         self.rng = rng
         self.longlen = longlen
+        self.base = base
         self.dir = os.path.join(base, "a%d" % rng.randrange(10 ** 9))
         self.src = os.path.join(self.dir, "src")
         self.out = os.path.join(self.dir, "out")
@@ -293,8 +366,15 @@ class Case(object):
         n = len(case["entries"])
         # the key under which an entry is persisted / loaded: the registry point for a spec-backed datasource,
         # the datasource itself for a stand-alone one
-        comps = [VSpecs.sf if e.get("filtered") else (POINTS[i] if e.get("backed") else COMPS[i])
+        # a "late" entry is produced by a component of the plugin that was loaded after an earlier load of this process
+        late = late_components(self.base, self.rng) if any(e.get("late") for e in case["entries"]) else None
+        comps = [VSpecs.sf if e.get("filtered") else
+                 ((late["points"][i] if e.get("backed") else late["comps"][i]) if e.get("late") else
+                  (POINTS[i] if e.get("backed") else COMPS[i]))
                  for i, e in enumerate(case["entries"])]
+        # observed, from the history of this process: was the component registered after the first load?
+        is_late = [late is not None and (c in late["points"] or c in late["comps"]) and
+                   (HIST["late_registered_after"] or 0) > 0 for c in comps]
         names = [dr.get_name(c) for c in comps]
         CUR.clear()
         for i, e in enumerate(case["entries"], 1):
@@ -336,7 +416,8 @@ class Case(object):
             centries.append(dict(kind=kind, multi=isinstance(v, list),
                                  failed=oc in ("content", "cmd", "timeout", "crash", "serialization"),
                                  outcome=oc, backed=bool(e.get("backed")), filtered=bool(e.get("filtered")), recorded=recorded,
-                                 saveas=e["saveas"], elems=elems))
+                                 late=is_late[i - 1], saveas=e["saveas"], elems=elems))
+            stats["late"] += int(is_late[i - 1])
             stats["failed_" + ("backed" if e.get("backed") else "alone")] += int(oc not in ("ok", "skip"))
             stats["filtered"] += int(bool(e.get("filtered")))
         events.append(dict(ev="collected", comps=centries, pooled=self.pooled))
@@ -365,6 +446,7 @@ class Case(object):
                                              args=self.args_proj(o.get("args"))))
                     stats["docs"] += 1
                     stats["docs_with_results"] += int(d["hasres"])
+                    stats["late_persisted"] += int(d["hasres"] and is_late[i - 1])
                     stats["docs_with_errors"] += int(d["nerrors"] > 0)
             docs.append(d)
             for j, r in enumerate(d["res"], 1):
@@ -471,6 +553,7 @@ class Case(object):
                 fresh = Hydration(self.out, ctx=ctx).hydrate(dr.Broker())
         except Exception as ex:
             escaped, exc = True, "%s: %s" % (type(ex).__name__, ex)
+        HIST["loads"] += 1
         loaded = []
         for i, comp in enumerate(comps, 1):
             present = comp in fresh
@@ -486,6 +569,7 @@ class Case(object):
                                   rel=getattr(p, "relative_path", "") or ""))
             loaded.append(dict(present=bool(present and vals), multi=isinstance(v, list), elems=elems))
             stats["loaded"] += int(bool(present and vals))
+            stats["late_loaded"] += int(bool(present and vals) and is_late[i - 1])
         events.append(dict(ev="hydrated", via=via, escaped=escaped, exc=exc, order=list(_ORDER["last"]), loaded=loaded))
         stats["archives"] += 1
         shutil.rmtree(self.dir, True)
@@ -499,7 +583,7 @@ def main():
     rng = random.Random(req.get("seed", 0))
     _ORDER["rng"] = random.Random(req.get("seed", 0) + 1)
     os.makedirs(req["base"], exist_ok=True)
-    stats = dict(filtered=0, failed_backed=0, failed_alone=0, pooled=0, archives=0, docs=0, docs_with_results=0, docs_with_errors=0, datafiles=0, faults=0, loaded=0)
+    stats = dict(late=0, late_persisted=0, late_loaded=0, filtered=0, failed_backed=0, failed_alone=0, pooled=0, archives=0, docs=0, docs_with_results=0, docs_with_errors=0, datafiles=0, faults=0, loaded=0)
     traces = []
     for k, case in enumerate(req["cases"]):
         c = Case(case, req["base"], rng, req.get("longlen", 70000))
